@@ -347,7 +347,7 @@ func (e *Engine) tableElem(x ast.Expr, i Value, rt types.Type) (Value, bool) {
 // packages whose functions never write memory the program can observe through our heaps
 var purePkgs = map[string]bool{"strings": true, "bytes": true, "unicode": true, "unicode/utf8": true, "strconv": true, "errors": true,
 	"math": true, "math/bits": true, "path": true, "html": true, "net/url": true, "fmt": true, "sort": false, "time": true, "reflect": true,
-	"encoding/base64": true, "unicode/utf16": true, "path/filepath": true, "io/fs": true, "slices": false, "math/big": true}
+	"encoding/base64": true, "unicode/utf16": true, "github.com/yuin/goldmark/util": true, "path/filepath": true, "io/fs": true, "slices": false, "math/big": true}
 
 var pureStubs = map[string]bool{}
 
@@ -557,6 +557,33 @@ func (e *Engine) stdStub(full string, c *ast.CallExpr, recv *Value, args []Value
 			e.assume(st.pc, implies(res[0].T, e.le(need, l1)))
 		}
 		return res, true
+	case "github.com/yuin/goldmark/util.IndentWidth":
+		// goldmark util.IndentWidth(bs, currentPos): "calculate an indent width for the given line" - it counts the leading
+		// spaces and tabs of bs: pos is their number, width their visual width
+		note(full + ": 0 <= pos <= len(bs), 0 <= width, pos <= width; bs[pos] (if any) is neither space nor tab; no effect on memory")
+		res := e.pureUF(full, sig, recv, args, st)
+		if e.bound == 0 && len(res) == 2 {
+			arr, off, ln := e.bytesOf(st, args[0])
+			w, p := res[0].T, res[1].T
+			at := sx("select", arr, e.add(off, p))
+			e.assume(st.pc, and(e.le(e.izero(), p), e.le(p, ln), e.le(e.izero(), w), e.le(p, w),
+				implies(e.lt(p, ln), and(not(eq(at, "32")), not(eq(at, "9"))))))
+		}
+		return res, true
+	case "net/url.Parse", "net/url.ParseRequestURI":
+		note(full + ": returns a non-nil *URL when the error is nil")
+		res := e.havocResultsPure(st, sig, full)
+		if len(res) == 2 {
+			e.assume(st.pc, implies(eq(sx("i_tid", res[1].T), "0"), e.lt(e.izero(), res[0].T)))
+		}
+		return res, true
+	case "path.Ext", "path/filepath.Ext":
+		note(full + `: "the suffix beginning at the final dot in the final slash-separated element of path; it is empty if there is no dot" - a suffix of the argument`)
+		res := e.pureUF(full, sig, recv, args, st)
+		if e.bound == 0 {
+			e.assume(st.pc, e.le(sx("s_len", res[0].T), sx("s_len", args[0].T)))
+		}
+		return res, true
 	case "slices.Contains", "slices.Index":
 		note(full + ": deterministic function of the slice contents and the value (no heap effect)")
 		return e.pureUF(full, sig, recv, args, st), true
@@ -609,10 +636,27 @@ func (e *Engine) stdStub(full string, c *ast.CallExpr, recv *Value, args []Value
 		}
 		return res, true
 	case "sort.Strings", "sort.Slice", "sort.Sort", "sort.Ints", "sort.SliceStable", "sort.Stable", "slices.Sort", "slices.SortFunc":
-		note(full + ": permutes the slice in place (contents havocked; length unchanged)")
+		note(full + ": permutes the slice in place (every element afterwards is one of the elements before; length unchanged)")
 		if len(args) > 0 {
 			if sl, ok := types.Unalias(args[0].Typ).Underlying().(*types.Slice); ok {
-				e.havocHeap(st, elemHeapName(sl.Elem()))
+				hn := elemHeapName(sl.Elem())
+				srt := e.arrSort(e.arrSort(e.sortOf(sl.Elem())))
+				h0 := e.heapGet(st, hn, srt)
+				e.havocHeap(st, hn)
+				if e.bound == 0 && e.spec == 0 {
+					h1 := e.heapGet(st, hn, srt)
+					ref, off, ln := sx("l_ref", args[0].T), sx("l_off", args[0].T), sx("l_len", args[0].T)
+					e.nfresh++
+					pi := fmt.Sprintf("perm!%d", e.nfresh)
+					e.declareFun(pi, []string{e.isort()}, e.isort())
+					k := "k!p"
+					// inside the slice: new[k] = old[perm(k)] with perm(k) inside the slice; other arrays are untouched
+					nk := e.add(off, k)
+					ok := e.add(off, sx(pi, k))
+					e.assume(st.pc, fmt.Sprintf("(forall ((%s %s)) (! (=> (and %s %s) (and %s %s (= (select (select %s %s) %s) (select (select %s %s) %s)))) :pattern ((select (select %s %s) %s))))",
+						k, e.isort(), e.le(e.izero(), k), e.lt(k, ln), e.le(e.izero(), sx(pi, k)), e.lt(sx(pi, k), ln), h1, ref, nk, h0, ref, ok, h1, ref, nk))
+					e.assume(st.pc, fmt.Sprintf("(forall ((r!p %s)) (! (=> (not (= r!p %s)) (= (select %s r!p) (select %s r!p))) :pattern ((select %s r!p))))", e.isort(), ref, h1, h0, h1))
+				}
 				return nil, true
 			}
 		}
